@@ -265,3 +265,19 @@ claim("C18",
       note="Metric predicates are float relations; Johnson solids have no per-solid reference counts in the table.",
       technique="TLA+ reference table and loader state machine checked by TLC + exhaustive conformance over all entries",
       design_ref="DESIGN.md 5 C18")
+
+
+claim("C09",
+      text="spec/Placement.tla states per observable kind how the observable of g.x follows from that of x under a similarity g = "
+           "(s, R, t) and under relabelling, and TLC proves these laws against the definitions of Geom3 (volume, first and second "
+           "moments, facets, primitive normals, offsets) on the lattice symmetry group for every lattice polytope state; the harness "
+           "applies the same law table to EVERY public observable found by reflection on all ten classes: the shape built from "
+           "transformed / relabelled coordinates must show Law_g of what the shape built from the original coordinates shows "
+           "(rational and seeded random proper rotations, offsets of ten diameters, scales 1e-3..1e3, vertex permutations, face "
+           "shifts), including exception behaviour, containment of mapped query points (with points in degenerate alignment to the "
+           "axis-aligned original) and form factors with the translation phase.",
+      note="Metamorphic relation between two runs of the implementation; exact values are bound by the other checks. Query points "
+           "closer than 1e-6 sizes to the boundary (measured independently) are not asserted. Observables missing from the law "
+           "table are listed in the evidence.",
+      technique="TLA+ model checking (TLC) of covariance laws on the lattice symmetry group + metamorphic conformance by reflection",
+      design_ref="DESIGN.md 5 C09")
